@@ -1,6 +1,7 @@
 import TLVerif.Util.Hex
 import TLVerif.Udp.Monitor
 import TLVerif.Udp.Window
+import TLVerif.Udp.Resend
 /-! Line-protocol handler for the `udp` family.
 
 `udp.mon <limit> <flags> <trace>`: run the monitor over a `;`-separated event trace (grammar in
@@ -119,22 +120,44 @@ def rcvMem (msgs : List (List Payload)) (chunks : List Chunk) (hi : Nat) (r : Re
 
 def flagsStr (w : List OChunk) : String := String.ofList (w.map (fun c => if c.acked then '1' else '0'))
 
-def sndRun : Send → List String → List String → Option (Send × List String)
+def parseRanges (s : String) : Option (List (Nat × Nat)) :=
+  (s.splitOn "/").mapM (fun r => match nats (r.splitOn "-") with
+    | some [a, b] => some (a, b)
+    | _ => none)
+
+def sndStepStr (x : SendX) : String :=
+  s!"{x.base.ackPrefix}:{x.base.nextSeq}:{dash (flagsStr x.base.window)}:{x.base.released.length}:{x.timeouted}.{x.nonTimeouted}.{x.notSended}.{x.chunkToSend}"
+
+def sndRun : SendX → List String → List String → Option (SendX × List String)
   | s, [], acc => some (s, acc.reverse)
   | s, op :: ops, acc =>
-    match (op.drop 1).toString.toNat? with
+    let c := op.front
+    let rest := (op.drop 1).toString
+    if c == 'r' then
+      match parseRanges rest with
+      | none => none
+      | some rs => let s' := s.setResend rs; sndRun s' ops (sndStepStr s' :: acc)
+    else
+    match rest.toNat? with
     | none => none
     | some n =>
-      let c := op.front
-      let s' : Option Send :=
-        if c == 'm' then (if n < 1 || s.nextMsg > 250 then none else some (s.push n))
+      if c == 'g' then
+        let (s', pk) := s.getChunks {}
+        if pk.nilDeref then some (s', (("panic" :: acc).reverse))
+        else
+          let g := s!":g{pk.seqs.headD 0}.{if pk.single then 1 else 0}.{dash ("+".intercalate (pk.seqs.map toString))}.{s'.resendIndex}.{s'.rangeInner}"
+          sndRun s' ops ((sndStepStr s' ++ g) :: acc)
+      else
+      let s' : Option SendX :=
+        if c == 'm' then (if n < 1 || s.base.nextMsg > 250 then none else some (s.push (List.replicate (n - 1) 28 ++ [4])))
+        else if c == 's' then (if n < 1 || n > 28 || s.base.nextMsg > 250 then none else some (s.push [n]))
         else if c == 'c' then some (s.ackChunk n)
         else if c == 'p' then some (s.ackPrefixTo n)
+        else if c == 't' then some s.onResendTimeout
         else none
       match s' with
       | none => none
-      | some s' =>
-        sndRun s' ops (s!"{s'.ackPrefix}:{s'.nextSeq}:{dash (flagsStr s'.window)}:{s'.released.length}" :: acc)
+      | some s' => sndRun s' ops (sndStepStr s' :: acc)
 
 def handle (op : String) (args : List String) : String :=
   match op, args with
@@ -150,7 +173,8 @@ def handle (op : String) (args : List String) : String :=
     match sndRun {} (if ops == "-" then [] else ops.splitOn ",") [] with
     | none => "bad-op"
     | some (s, steps) =>
-      s!"ok {dash (",".intercalate steps)} {dash (",".intercalate (s.released.map toString))}"
+      if steps.getLast? == some "panic" then "panic"
+      else s!"ok {dash (",".intercalate steps)} {dash (",".intercalate (s.base.released.map toString))}"
   | "mon", [lim, fl, tr] =>
     match lim.toNat?, fl.toNat?, parseTrace tr with
     | some limit, some flags, some evs =>
